@@ -107,6 +107,8 @@ def rel(c, e, g):
     if 'endless' in c.get('tags', ()):
         if e is None:
             return True
+        if e['error'] is not None:
+            return isinstance(g, dict) and g.get('error') == e['error']
         if e['pulls'] >= len(c['A_model']):
             return True       # the model did not reach the bound within its finite prefix: nothing to compare
         if not isinstance(g, dict) or g.get('error') is not None:
